@@ -1146,6 +1146,7 @@ pub unsafe extern "C" fn authorizer_builder_build(
 ) -> Option<Box<Authorizer>> {
     if builder.is_none() {
         update_last_error(Error::InvalidArgument);
+        return None;
     }
     let builder = builder.unwrap();
     builder
@@ -1168,6 +1169,7 @@ pub unsafe extern "C" fn authorizer_builder_build_unauthenticated(
 ) -> Option<Box<Authorizer>> {
     if builder.is_none() {
         update_last_error(Error::InvalidArgument);
+        return None;
     }
     let builder = builder.unwrap();
     builder
